@@ -120,12 +120,36 @@ fn word_write_run<W: SimWord, A: WordWrite<Word = W, Error = std::io::Error> + W
     let nb = W::NBYTES;
     // model device
     let mut dev: Vec<u8> = Vec::new();
+    // known[i]: the model knows byte i (false inside a word whose write failed part-way)
+    let mut known: Vec<bool> = Vec::new();
     let mut pos: usize = 0;
     let mut flushed_ok = true; // everything written so far has been flushed
     let class = fault_class(&s.plan);
+    // after a failed write (direct wrap) the position is unknown until a successful
+    // absolute seek: "seeking to a word position addresses that word"
+    let mut lost = false;
+    let same = |dev: &Vec<u8>, known: &Vec<bool>, got: &Vec<u8>| -> bool {
+        let min_len = known.iter().rposition(|k| *k).map(|p| p + 1).unwrap_or(0);
+        if got.len() > dev.len() || got.len() < min_len {
+            return false;
+        }
+        got.iter().enumerate().all(|(i, b)| !known[i] || dev[i] == *b)
+    };
     for (i, op) in ops.iter().enumerate() {
         ctx.ops += 1;
         let before_hard = sh.borrow().hard_fired;
+        if lost {
+            match op {
+                Op11::SetPos(_) => {}
+                Op11::Flush => {
+                    if let Err(p) = guard(|| a.flush()) {
+                        return ctx.fail("C11.panic", format!("flush after an error panicked: {}", p));
+                    }
+                    continue;
+                }
+                _ => continue,
+            }
+        }
         match op {
             Op11::WriteWord(x) => {
                 ctx.step(tags(s, "write_word"));
@@ -142,15 +166,19 @@ fn word_write_run<W: SimWord, A: WordWrite<Word = W, Error = std::io::Error> + W
                         let bytes = w.to_ne();
                         if dev.len() < pos + nb {
                             dev.resize(pos + nb, 0);
+                            known.resize(pos + nb, true);
                         }
                         dev[pos..pos + nb].copy_from_slice(&bytes);
+                        for k in known[pos..pos + nb].iter_mut() {
+                            *k = true;
+                        }
                         pos += nb;
                         flushed_ok = false;
                         ctx.progressed = true;
                         if !buffered {
                             // direct: the device must already hold every acknowledged byte
                             let d = sh.borrow();
-                            if d.data != dev {
+                            if !same(&dev, &known, &d.data) {
                                 let fired: Vec<String> = d.fired.keys().map(|(f, o)| format!("{}@{}", f, o)).collect();
                                 drop(d);
                                 return ctx.fail(
@@ -178,13 +206,18 @@ fn word_write_run<W: SimWord, A: WordWrite<Word = W, Error = std::io::Error> + W
                             let mut ok = false;
                             for k in 0..=nb {
                                 let mut exp = dev.clone();
+                                let mut kn = known.clone();
                                 if k > 0 {
                                     if exp.len() < pos + k {
                                         exp.resize(pos + k, 0);
+                                        kn.resize(pos + k, true);
                                     }
                                     exp[pos..pos + k].copy_from_slice(&bytes[..k]);
+                                    for x in kn[pos..pos + k].iter_mut() {
+                                        *x = true;
+                                    }
                                 }
-                                if d.data == exp {
+                                if same(&exp, &kn, &d.data) {
                                     ok = true;
                                     break;
                                 }
@@ -201,7 +234,22 @@ fn word_write_run<W: SimWord, A: WordWrite<Word = W, Error = std::io::Error> + W
                                 );
                             }
                         }
-                        return; // nothing asserted after the first error on this stream
+                        if buffered {
+                            return; // BufWriter after an error: nothing further asserted
+                        }
+                        // direct: the failed word's bytes are unknown from now on; the position
+                        // is lost until a successful absolute seek
+                        // (a gap opened by a previous seek beyond the end exists on the device
+                        // only if some byte of this word got through: unknown as well)
+                        if dev.len() < pos + nb {
+                            dev.resize(pos + nb, 0);
+                            known.resize(pos + nb, false);
+                        }
+                        for k in known[pos..pos + nb].iter_mut() {
+                            *k = false;
+                        }
+                        lost = true;
+                        continue;
                     }
                 }
             }
@@ -217,7 +265,7 @@ fn word_write_run<W: SimWord, A: WordWrite<Word = W, Error = std::io::Error> + W
                     Ok(()) => {
                         flushed_ok = true;
                         let d = sh.borrow();
-                        if d.data != dev {
+                        if !same(&dev, &known, &d.data) {
                             let got = d.data.clone();
                             drop(d);
                             return ctx.fail(
@@ -281,6 +329,10 @@ fn word_write_run<W: SimWord, A: WordWrite<Word = W, Error = std::io::Error> + W
                             flushed_ok = true;
                         }
                         ctx.probe("c11.seek_on_writer");
+                        if lost {
+                            ctx.probe("c11.seek_after_write_error_resumes_checking");
+                        }
+                        lost = false;
                     }
                     Err(e) => {
                         if class == "faultfree" {
@@ -876,6 +928,7 @@ impl Family for C11 {
             "c11.seek_on_reader",
             "c11.seek_on_writer",
             "c11.seek_after_read_error_resumes_checking",
+            "c11.seek_after_write_error_resumes_checking",
         ]
     }
 
